@@ -4,7 +4,7 @@
    source lines (LF, CRLF, CR end a line). *)
 From Coq Require Import String.
 From Coq Require Import NArith List Bool Sorted.
-From DI Require Import Result PyStr PyStrFacts Deb822 Deb822Facts.
+From DI Require Import Result PyStr PyStrFacts Deb822 Deb822Facts Renumber.
 Import ListNotations.
 Open Scope N_scope.
 
@@ -63,4 +63,26 @@ Print Assumptions C05_line_structure_join.
 Example C05_form_feed_is_not_a_line_end :
   groups (lit "License: GPL" ++ [10] ++ lit " foo" ++ [12] ++ lit "bar" ++ [10] ++ lit " baz" ++ [10]) =
   Ok [[mkField (lit "license") [mkLine 1 (lit "GPL"); mkLine 2 (lit " foo" ++ [12] ++ lit "bar"); mkLine 3 (lit " baz")]]].
+Proof. vm_compute. reflexivity. Qed.
+
+(* the parser carries the numbers of the lines it is handed, it never reads them: handed the same
+   lines under other numbers (any renumbering g) it reports the same groups under those numbers *)
+Theorem C05_numbers_are_carried : forall g lines,
+  groups_from_lines (map (renum g) lines) = rmap (renum_groups g) (groups_from_lines lines).
+Proof. exact groups_from_lines_renum. Qed.
+Print Assumptions C05_numbers_are_carried.
+
+(* in particular the lines of a text numbered from k+1 (the tail of a larger file) give the groups of
+   the text with every number k higher *)
+Theorem C05_lines_numbered_from_anywhere : forall t k, groups_offset t k = groups t.
+Proof. exact groups_offset_groups. Qed.
+Print Assumptions C05_lines_numbered_from_anywhere.
+
+Example C05_ex_offset :
+  groups_from_lines (number_from 1001 (text_lines (lit "a: b
+ c
+
+d: e")))
+  = Ok [[mkField (lit "a") [mkLine 1001 (lit "b"); mkLine 1002 (lit " c")]];
+        [mkField (lit "d") [mkLine 1004 (lit "e")]]].
 Proof. vm_compute. reflexivity. Qed.
